@@ -351,7 +351,17 @@ def sum(vs, axis=None):  # noqa: A001
 
 
 def isclose(a, b):
-    return a == b
+    """numpy.isclose with default rtol=1e-5, atol=1e-8 on integers:
+    |a-b| <= 1e-8 + 1e-5*|b|  <=>  10^8*|a-b| <= 1 + 10^3*|b| (the two sides
+    differ by at least 1 for integers, so double rounding cannot flip it)."""
+    with NoTracing():
+        if not _is_sym(a) and not _is_sym(b):
+            return 10 ** 8 * abs(a - b) <= 1 + 10 ** 3 * abs(b)
+        za, zb = _zint(a), _zint(b)
+        d = za - zb
+        absd = z3.If(d >= 0, d, -d)
+        absb = z3.If(zb >= 0, zb, -zb)
+        return sym_bool(10 ** 8 * absd <= 1 + 10 ** 3 * absb)
 
 
 # ---- fork-free replacements for scheduler._any/_all ------------------------
